@@ -269,3 +269,29 @@ package multiparty
 //@   case len(params.ringQ.SubRings) == 1 ; set params.ringP = nil
 //@   requires len(others) <= 2
 //@   ensures true
+
+// ---- finalisation of the collective evaluation key (property C14): every digit of every RNS component
+// ---- of the aggregated share, and of the common reference polynomials, reaches the key.  Checked for
+// ---- the smallest shape with UNEQUAL digit counts (one digit for component 0, two for component 1):
+// ---- a bounded instance, labelled so; the general statement needs an invariant over a ragged matrix.
+//@ afunc EvaluationKeyGenProtocol.GenEvaluationKey#ragged
+//@   property C14
+//@   case len(share.Value) == 2 && len(share.Value[0]) == 1 && len(share.Value[1]) == 2 && len(crp.Value) == 2 && len(crp.Value[0]) == 1 && len(crp.Value[1]) == 2 && len(evk.Value) == 2 && len(evk.Value[0]) == 1 && len(evk.Value[1]) == 2
+//@   unwind 5
+//@   ensures implies(isnil(err), val(evk.Value[1][1][0].Q) == old(val(share.Value[1][1][0].Q)) && val(evk.Value[1][1][1].Q) == old(val(crp.Value[1][1].Q)))
+//@   ensures implies(isnil(err), val(evk.Value[0][0][0].Q) == old(val(share.Value[0][0][0].Q)) && val(evk.Value[1][0][0].Q) == old(val(share.Value[1][0][0].Q)))
+
+// ---- a party's share of a collective Galois key (property C14): the share is tagged with the Galois
+// ---- element and is an evaluation-key share for the secret mapped by the INVERSE automorphism; the
+// ---- call returns (does not panic) with and without an auxiliary modulus P (finding F29)
+//@ afunc EvaluationKeyGenProtocol.GenShare
+//@   trusted digit loops (row-level gadget factors) outside the abstract engine: an evaluation-key share or an error
+//@ afunc GaloisKeyGenProtocol.GenShare
+//@   property C14
+//@   nilable
+//@   nilsafe
+//@   requires skinv(sk)
+// the ring Q and its tables exist; the ring P exists whenever the share has an auxiliary part
+//@   requires !isnil(gkg.params.ringQ) && !isnil(gkg.params.ringQ.SubRings[0]) && !isnil(gkg.params.ringQ.SubRings[0].NTTTable)
+//@   requires implies(len(shareOut.Value[0][0][0].P.Coeffs) > 0, !isnil(gkg.params.ringP))
+//@   ensures shareOut.GaloisElement == galEl
